@@ -202,6 +202,46 @@ theorem durable_before_replace_counterexample : ¬ DurableBeforeReplace .genOrig
   revert this
   decide
 
+/-! ## 3b. Histories of saves: temp files left behind by interrupted saves -/
+
+/-- full statement for a program `v`: after ANY history of saves — each with its own buffer, any
+    failure pattern, stopped anywhere (killed saves leave their temp file behind; the generic
+    package re-uses the name `<path>.tmp`) — the offsets file holds, on both levels, what it held
+    before the history or exactly the buffer of one of the saves: a snapshot that was saved at some
+    earlier moment, never a mixture. -/
+def HistoryKeepsSavedSnapshot (v : Variant) : Prop :=
+  ∀ (fs0 : FS) (saves : List (Bytes × List Op)) (fs : FS), runHist v fs0 saves = some fs →
+    (crashKill fs = crashKill fs0 ∨ ∃ sv ∈ saves, crashKill fs = some sv.1) ∧
+    (crashPower fs = crashPower fs0 ∨ ∃ sv ∈ saves, crashPower fs = some sv.1)
+
+/-- **offset/offset.go as fixed** (journalctl, dmesg): `os.Create` truncates a left-over `<path>.tmp` -/
+theorem history_keeps_saved_snapshot_generic : HistoryKeepsSavedSnapshot .genFixed :=
+  fun fs0 saves fs hr => hist_inv .genFixed trivial saves fs0 fs hr
+
+/-- **plugin/input/file/offset.go as fixed** (fresh temp name per save) -/
+theorem history_keeps_saved_snapshot_file : HistoryKeepsSavedSnapshot .fileFixed :=
+  fun fs0 saves fs hr => hist_inv .fileFixed trivial saves fs0 fs hr
+
+/-- a save killed before its rename leaves a 5-byte temp file; the next save of a 2-byte state
+    truncates it and the offsets file gets exactly the 2 bytes -/
+example : (runHist .genFixed (init (some [9])).fs
+    [([1, 2, 3, 4, 5], [.openTrunc true, .write 5 true, .fsync true, .close true]),
+     ([7, 8], [.openTrunc true, .write 2 true, .fsync true, .close true, .rename true])]).map (·.cur)
+    = some ⟨some [7, 8], some [7, 8]⟩ := by decide
+
+/-- **why the truncation matters** (seeded change C07-d): the same program opening the temp file
+    without O_TRUNC. The left-over 5 bytes are only partly overwritten and `7 8 3 4 5` — a state that
+    was never saved — replaces the good offsets file. -/
+theorem history_counterexample_without_truncate : ¬ HistoryKeepsSavedSnapshot .genNoTrunc := by
+  intro h
+  have := h (init (some [9])).fs
+    [([1, 2, 3, 4, 5], [.openKeep true, .write 5 true, .fsync true, .close true]),
+     ([7, 8], [.openKeep true, .write 2 true, .fsync true, .close true, .rename true])]
+    ⟨⟨some [7, 8, 3, 4, 5], some [7, 8, 3, 4, 5]⟩, absent⟩ (by decide)
+  revert this
+  simp only [crashKill, crashPower]
+  decide
+
 /-! ## 4. Together: what a restarted plugin loads after any save -/
 
 /-- **the property**: previous snapshot `told` in place, a save of `tnew` runs with any failure
